@@ -247,6 +247,9 @@ def strace_sweep(res, s, op, scratch):
             f.write(pre)
         rc2, calls2, r2 = sysmon.run_child(job, db, wdir, inject=f"{name}:error={errname}:when={j}")
         res.count("strace.children")
+        if not sysmon.hit_as_addressed(calls, k, calls2, "error"):
+            res.count("strace.misaddressed_skipped")
+            continue
         label = f"{errname}:syscall.{name}#{j}@{k}/{len(calls)}"
         feats = {"op": op["op"], "fault": f"{errname}:syscall.{name}", "origin": "strace"}
         base = {"config": cfg_name(s.cfg), "op": opd, "fault": label, "syscall": calls[k][1][:100]}
@@ -257,6 +260,8 @@ def strace_sweep(res, s, op, scratch):
             continue
         res.evaluations += 1
         res.count("strace.faults_injected")
+        if name.startswith("rename"):
+            res.count("strace.rename_faults")
         if r2.get("exc") is None:
             # a failing syscall that python retries or that is not part of a checked call (e.g. close of a read-only fd) may be invisible
             if name in ("lseek", "close", "openat"):
@@ -313,9 +318,13 @@ def run_history(res, cfg, scratch, rng, tier, strace_budget):
                 r = sweep_op(res, s, op, scratch, rng, tier)
                 if r is False:
                     return
-                if strace_budget[0] > 0 and sysmon.available() and rng.random() < 0.5:
-                    strace_budget[0] -= 1
+                rewrites = op["op"] in ("update", "update_all", "remove", "drop_measurement")
+                slot = 1 if rewrites else 0  # one budget for appends/resets, one for operations that rewrite the file
+                if strace_budget[slot] > 0 and sysmon.available() and (rewrites or rng.random() < 0.5):
+                    n_before = res.counters.get("strace.ops_swept", 0)
                     strace_sweep(res, s, op, scratch)
+                    if res.counters.get("strace.ops_swept", 0) > n_before and (not rewrites or res.counters.get("strace.rename_faults", 0)):
+                        strace_budget[slot] -= 1
             with quiet_stdout():
                 out = s.do(op)
             post = s.contents()
@@ -337,7 +346,7 @@ def run(res, tier, seed, shard, nshards):
         "to old or new, reopen + insert + count works; a sample of ops repeated with real errnos injected by strace at "
         "the k-th syscall on the database; distinct_nontrivial = distinct (contents, op, arguments, I/O call sequence)"
     )
-    budget = [N_STRACE[tier]]
+    budget = [N_STRACE[tier], N_STRACE[tier]]
     with Scratch("c13") as scratch:
         for ci, cfg in enumerate([default_config("csv", True), default_config("csv", False)]):
             for h in range(N_HIST[tier]):
